@@ -35,8 +35,9 @@ STATUSES = [0, 1, 255, 256, 65535, 65536, 2 ** 31 - 1, 2 ** 31, 0xC000013A, 2 **
 
 
 def limbs(v):
-    """an exit status as TLC sees it: [high 16 bits, low 16 bits]; [-1, -1] = none, [-2, -2] = not a uint32"""
-    if v is None:
+    """an exit status as TLC sees it: [high 16 bits, low 16 bits]; [-1, -1] = none (what recv_exit_status returns
+    when no status was stored), [-2, -2] = not a uint32"""
+    if v is None or v == -1:
         return [-1, -1]
     if not 0 <= v < 2 ** 32:
         return [-2, -2]
@@ -731,6 +732,68 @@ def combine_explore(prog, mode, bound, max_runs, seed):
             yield ex
 
 
+# --------------------------------------------------------------------------- C21: exit status handler vs waiters
+
+STATUS_FUNCS = ("_handle_request", "recv_exit_status", "exit_status_ready")
+
+
+def status_scenario(status, poller):
+    """transport thread T: Channel._handle_request("exit-status", status); W: recv_exit_status() (blocks until the
+    event is set); P (optional): polls exit_status_ready() once or twice and reads the status if it is ready.
+    One trace per thread that obtained a value."""
+    from paramiko.message import Message
+    from harness.drivers import chan as dchan
+
+    def scenario(S):
+        ch, _ft = dchan.make_channel()
+        results = {}
+
+        def tbody():
+            m = Message()
+            m.add_string("exit-status")
+            m.add_boolean(False)
+            m.add_bytes(status.to_bytes(4, "big"))
+            m.rewind()
+            ch._handle_request(m)
+
+        def wbody():
+            results["W"] = ch.recv_exit_status()
+
+        def pbody():
+            for _ in range(2):
+                if ch.exit_status_ready():
+                    results["P"] = ch.recv_exit_status()
+                    return
+        S.spawn(tbody, "T")
+        S.spawn(wbody, "W")
+        if poller:
+            S.spawn(pbody, "P")
+
+        def after(ex):
+            out = []
+            for who, v in sorted(results.items()):
+                out.append({"chan": 0, "dir": "down", "sent": {"out": 0, "err": 0}, "combine": "off", "events": [],
+                            "comb_t0": 0, "comb_t1": 0, "status_sent": limbs(status), "status_got": limbs(v),
+                            "who": who})
+            return {"traces": out, "quiescent": not (ex.hang or ex.stuck or ex.budget_exhausted)}
+        return after
+    return scenario
+
+
+def status_explore(status, poller, bound, max_runs):
+    import paramiko.channel as pch
+    import paramiko.buffered_pipe as bp
+    sc = status_scenario(status, poller)
+    files = {pch.__file__}
+    quiet_logs()
+
+    def lf(filename, func):
+        return func in STATUS_FUNCS
+    with ls.patched(bp, pch):
+        for ex in ls.explore_dfs(sc, bound=bound, max_runs=max_runs, trace_files=files, line_filter=lf):
+            yield ex
+
+
 # --------------------------------------------------------------------------- C21: spec -> code replay
 
 def as_records(runs):
@@ -769,6 +832,7 @@ def replay_behaviour(hist, chans, max_bytes, scale, seed):
     wire = []
     clock = [0]
     diffs = []
+    called = set()
 
     def stamp():
         clock[0] += 1
@@ -784,6 +848,11 @@ def replay_behaviour(hist, chans, max_bytes, scale, seed):
             v = v[0] * 65536 + v[1]
             wire.append((c, 2, v, 0))
             trace[c]["status_sent"] = limbs(v)
+        elif kind == 9:                           # second statement of the exit-status handler: ran at its <<3>>
+            pass
+        elif kind == 8:                           # recv_exit_status() (the event is set: it does not block)
+            trace[st[1]]["status_got"] = limbs(chs[st[1]].recv_exit_status())
+            called.add(st[1])
         elif kind in (6, 7):                      # the peer's shutdown_write() / close()
             wire.append((st[1], 3 if kind == 6 else 4, 0, 0))
         elif kind == 3:
@@ -830,7 +899,7 @@ def replay_behaviour(hist, chans, max_bytes, scale, seed):
             if have != exp or any((r[0] != c or not r[4]) for r in runs):
                 diffs.append({"step": e["step"], "chan": c, "ep": e["ep"], "asked": e["asked"], "spec": exp, "code": have})
     for c in chans:
-        if chs[c].exit_status_ready():
+        if c not in called and chs[c].exit_status_ready():
             trace[c]["status_got"] = limbs(chs[c].recv_exit_status())
     return [trace[c] for c in chans], diffs
 
